@@ -276,6 +276,24 @@ def run(prog, rep, tier, repo):
                     seen_diff = True
                     if (t[2][2][2], t[3][2][2]) == (1, 0):
                         okdiff = True
+        # a summand with one scalar weight for all intervals on a path where abscissae were passed: the trapezoid rule on given abscissae
+        # weights interval i by x[i] - x[i-1]; no O(1) test can establish that all of these are equal
+        xarg = ('arg', 2, f.names.get(2))
+        for c_ in f.calls():
+            for a_ in c_.args:
+                if tag(a_) == 'agg' and a_[1] == 'closure' and a_[2] in cls:
+                    g = cls[a_[2]]
+                    rv = g.return_values()
+                    if len(rv) != 1 or tag(rv[0]) != 'bin' or rv[0][1] != 'Mul':
+                        continue
+                    for u, v in ((rv[0][2], rv[0][3]), (rv[0][3], rv[0][2])):
+                        halfsum = tag(u) == 'bin' and u[1] == 'Div' and tag(u[2]) == 'bin' and u[2][1] == 'Add' and \
+                            all(tag(z) == 'index' for z in (u[2][2], u[2][3]))
+                        scalar_w = tag(v) in ('upvar', 'deref', 'field', 'local', 'const') and not any(tag(z) == 'index' for z in subterms(v))
+                        some_x = any(tag(cn) == 'discr' and cn[1] == xarg and v_ == ('eq', 1) for cn, v_ in f.guards().get(c_.bb, []))
+                        if halfsum and scalar_w and some_x:
+                            problems.append('on a path where abscissae are given the intervals are all weighted by one scalar step (%s) instead of x[i] - x[i-1]: '
+                                            'a non-uniform grid that passes the shortcut test is integrated as if it were uniform' % show(v)[:30])
         undec = []
         if seen_term and not okterm:
             problems.append('summand is not (y[i] + y[i-1])/2 * diff_x[i-1]')
